@@ -20,6 +20,9 @@ class DetectVarNames( ast.NodeVisitor ):
     self.globals = upblk.__globals__
     self.closure = { *upblk.__code__.co_freevars }
     self.locals  = { *upblk.__code__.co_varnames }
+    # Local names bound to a part of the component inside the block:
+    #   for m in s.subs: ... m.out ...     (m stands for s.subs[*])
+    self.aliases = {}
     # Variables bound by a generator expression, a lambda or a nested
     # function inside the block are locals of that nested scope
     Q = [ upblk.__code__ ]
@@ -138,7 +141,7 @@ class DetectVarNames( ast.NodeVisitor ):
 
     obj_name = obj_name[::-1]
     nodelist = nodelist[::-1]
-    return obj_name, nodelist
+    return self._resolve_alias( obj_name, nodelist )
 
   def _get_full_name_starting_py39( self, input_node ):
     node = input_node
@@ -240,6 +243,18 @@ class DetectVarNames( ast.NodeVisitor ):
 
     obj_name = obj_name[::-1]
     nodelist = nodelist[::-1]
+    return self._resolve_alias( obj_name, nodelist )
+
+  def _resolve_alias( self, obj_name, nodelist ):
+    """ m.out with m bound by 'for m in s.subs' is s.subs[*].out """
+    root, root_idx = obj_name[0]
+    if root not in self.aliases:
+      return obj_name, nodelist
+    alias = self.aliases[ root ]
+    last_name, last_idx = alias[-1]
+    obj_name = alias[:-1] + [ (last_name, last_idx + root_idx) ] + obj_name[1:]
+    # the node list only provides line numbers for error messages
+    nodelist = [ nodelist[0] ] * ( 2*len(alias) ) + nodelist
     return obj_name, nodelist
 
 class DetectReadsWritesCalls( DetectVarNames ):
@@ -254,8 +269,21 @@ class DetectReadsWritesCalls( DetectVarNames ):
 
   def visit_Assign( self, node ):
     for x in node.targets:
-      self.visit( x )
+      if isinstance( x, ast.Name ):
+        self.aliases.pop( x.id, None ) # the local name is bound to something else
+      else:
+        self.visit( x )
     self.visit( node.value )
+
+  def visit_Name( self, node ):
+    # A local name that stands for a part of the component
+    if node.id in self.aliases:
+      alias = self.aliases[ node.id ]
+      pair  = ( alias, [ node ] * ( 2*len(alias) + 2 ), self.current_op )
+      if   isinstance( node.ctx, ast.Load ):
+        self.read.append( pair )
+      elif isinstance( node.ctx, ast.Store ):
+        self.write.append( pair )
 
   def visit_AugAssign( self, node ):
     self.current_op = node.op
@@ -312,9 +340,29 @@ class DetectReadsWritesCalls( DetectVarNames ):
       self.visit( x.value )
 
   def visit_For( self, node ):
+    # for m in s.subs / for i, m in enumerate( s.subs ): inside the loop m
+    # stands for the elements of s.subs
+    target, it = node.target, node.iter
+    if isinstance( it, ast.Call ) and isinstance( it.func, ast.Name ) and it.func.id == 'enumerate' and \
+       len( it.args ) == 1 and isinstance( target, ast.Tuple ) and len( target.elts ) == 2:
+      target, it = target.elts[1], it.args[0]
+
+    alias = None
+    if isinstance( target, ast.Name ) and isinstance( it, (ast.Attribute, ast.Subscript) ):
+      obj_name, _ = self._get_full_name( it )
+      if obj_name and obj_name[0][0] == "s":
+        alias = obj_name[:-1] + [ ( obj_name[-1][0], obj_name[-1][1] + [ "*" ] ) ]
+
+    for x in ast.walk( node.target ):
+      if isinstance( x, ast.Name ):
+        self.aliases.pop( x.id, None )
+
     self.current_op = 'for'
     self.visit( node.target )
     self.current_op = None
+
+    if alias is not None:
+      self.aliases[ target.id ] = alias
 
     self.visit( node.iter )
     for stmt in node.body:
